@@ -104,3 +104,56 @@ try:
             os._exit(4)
 except ImportError:        # pyworkers not importable here (e.g. manifest tooling): the classes are only needed by replays
     pass
+
+
+# ---- C09: pool targets and workers whose id collides with a registered one ---------------------
+def pool_target(x):
+    """x >= 2000: one long system call; x >= 1000: never returns and swallows every Exception;
+    x < 0: poison (raises: the persistent worker dies); else x*x"""
+    if x >= 1000:
+        d = os.environ.get('LIFE_FLAGDIR')
+        if d:
+            import threading
+            with open(os.path.join(d, 'stuck.%d.%d' % (os.getpid(), threading.get_native_id())), 'w') as f:
+                f.write(str(x))
+        if x >= 2000:
+            time.sleep(600)
+        while True:
+            try:
+                while True:
+                    time.sleep(0.001)
+            except Exception:
+                pass
+    if x < 0:
+        raise RuntimeError('poison input')
+    return x * x
+
+
+class _Colliding:
+    """a worker that reports a given id (two hosts with the same hostname and pid/tid numbering produce
+    such collisions for remote workers; here the id is handed in)"""
+
+    def __init__(self, *a, forced_id=None, **kw):
+        self._forced_id = forced_id
+        super().__init__(*a, **kw)
+
+    @property
+    def id(self):
+        f = self.__dict__.get('_forced_id')
+        return tuple(f) if f else super().id
+
+
+try:
+    from pyworkers.persistent_thread import PersistentThreadWorker as _PTW
+    from pyworkers.persistent_remote import PersistentRemoteWorker as _PRW
+
+    class CollidingPersistentThreadWorker(_Colliding, _PTW):
+        pass
+
+    class CollidingPersistentProcessWorker(_Colliding, _PPW):
+        pass
+
+    class CollidingPersistentRemoteWorker(_Colliding, _PRW):
+        pass
+except (ImportError, NameError):
+    pass
